@@ -76,6 +76,10 @@ def gen_doc(rng, nested=True):
         src += h
         s['hend'] = len(src.encode('utf-8'))
         src += '\n' + s['body']
+    if sections and not sections[-1]['body'] and rng.random() < 0.3:
+        # the input ends right after the last heading line (the '#' line or the Setext underline), without a final line break
+        src = src.rstrip('\n')
+        sections[-1]['hend'] = min(sections[-1]['hend'], len(src.encode('utf-8')))
     d.sections = sections
     d.meta = meta
     d.src = src.encode('utf-8')
